@@ -150,6 +150,88 @@ Theorem C14_create_node_acts_on_parent_object :
 Proof. intros s rp F df fz pfuel o2 gh ps rs t root path dirp name o raw dev ty Hcl Hfz Hchk Hwf Hl Hk.
        exact (StaticEffects.create_node_reaches s rp F df fz pfuel o2 gh ps Hcl Hfz Hchk Hwf Hl rs Hk t root path dirp name o raw dev ty). Qed.
 
+(* the mknodat call exactly: the inode kind comes from the InodeType alone, the permission
+   bits are the caller's mode & 07777 -- whatever S_IFMT bits that mode word carries are
+   dropped -- and the device number is the one given *)
+Theorem C14_create_node_exact_call :
+  forall s rp F df fz pfuel o2 gh ps rs t root path dirp name o ty,
+    StaticProofs.closed s -> fz <> 0%nat -> StaticProofs.chk_static_ok s rp F (OpathM.check_current fz o2 pfuel gh) ->
+    wf s df -> StaticProofs.links_ok s -> rs_kernel rs = false ->
+    StaticEffects.node_type ty <> 0 ->
+    path_split path = Some (Ok (dirp, Some name)) -> has_nul dirp = false -> has_nul name = false ->
+    StaticProofs.Frame s F t -> Static.tget t root = Some ROOT ->
+    ewalk s dirp false (has (rs_flags rs) RESOLVE_NO_SYMLINKS) = WOk o ->
+    exists t1 dir, Static.tget t1 dir = Some o /\
+      StaticEffects.reaches s rp t (root_create fz o2 pfuel gh ps rs root path ty)
+        (Mknodat dir name (N.lor (StaticEffects.node_type ty) (N.land (StaticEffects.node_raw ty) MODE_BITS)) (StaticEffects.node_dev ty)) t1.
+Proof. intros s rp F df fz pfuel o2 gh ps rs t root path dirp name o ty Hcl Hfz Hchk Hwf Hl Hk.
+       exact (StaticEffects.create_node_reaches_exact s rp F df fz pfuel o2 gh ps Hcl Hfz Hchk Hwf Hl rs Hk t root path dirp name o ty). Qed.
+
+Example C14_node_type_table :
+  StaticEffects.node_type (IFile 16872) = S_IFREG /\ StaticEffects.node_type (IFifo 33184) = S_IFIFO /\
+  StaticEffects.node_type (ICharDev 16872 259) = S_IFCHR /\ StaticEffects.node_type (IBlockDev 33184 259) = S_IFBLK /\
+  N.lor (StaticEffects.node_type (IFile 16872)) (N.land (StaticEffects.node_raw (IFile 16872)) MODE_BITS) = 33256.
+Proof. repeat split; reflexivity. Qed.
+
+Theorem C14_create_symlink_acts_on_parent_object :
+  forall s rp F df fz pfuel o2 gh ps rs t root path dirp name o target,
+    StaticProofs.closed s -> fz <> 0%nat -> StaticProofs.chk_static_ok s rp F (OpathM.check_current fz o2 pfuel gh) ->
+    wf s df -> StaticProofs.links_ok s -> rs_kernel rs = false ->
+    path_split path = Some (Ok (dirp, Some name)) -> has_nul dirp = false -> has_nul name = false -> has_nul target = false ->
+    StaticProofs.Frame s F t -> Static.tget t root = Some ROOT ->
+    ewalk s dirp false (has (rs_flags rs) RESOLVE_NO_SYMLINKS) = WOk o ->
+    exists t1 dir, Static.tget t1 dir = Some o /\
+      StaticEffects.reaches s rp t (root_create fz o2 pfuel gh ps rs root path (ISymlink target)) (Symlinkat target dir name) t1.
+Proof. intros s rp F df fz pfuel o2 gh ps rs t root path dirp name o target Hcl Hfz Hchk Hwf Hl Hk.
+       exact (StaticEffects.create_symlink_reaches s rp F df fz pfuel o2 gh ps Hcl Hfz Hchk Hwf Hl rs Hk t root path dirp name o target). Qed.
+
+Theorem C14_create_file_acts_on_parent_object :
+  forall s rp F df fz pfuel o2 gh ps rs t root path dirp name o flags mode,
+    StaticProofs.closed s -> fz <> 0%nat -> StaticProofs.chk_static_ok s rp F (OpathM.check_current fz o2 pfuel gh) ->
+    wf s df -> StaticProofs.links_ok s -> rs_kernel rs = false ->
+    path_split path = Some (Ok (dirp, Some name)) -> has_nul dirp = false -> has_nul name = false ->
+    StaticProofs.Frame s F t -> Static.tget t root = Some ROOT ->
+    ewalk s dirp false (has (rs_flags rs) RESOLVE_NO_SYMLINKS) = WOk o ->
+    exists t1 dir, Static.tget t1 dir = Some o /\
+      StaticEffects.reaches s rp t (root_create_file fz o2 pfuel gh ps rs root path flags mode)
+        (Openat dir name (N.lor (N.lor (N.lor (N.lor flags CREATE_FILE_FORCED) OPENAT_NOFOLLOW_FORCED) OPENAT_FORCED) O_LARGEFILE)
+                (N.land mode MODE_BITS)) t1.
+Proof. intros s rp F df fz pfuel o2 gh ps rs t root path dirp name o flags mode Hcl Hfz Hchk Hwf Hl Hk.
+       exact (StaticEffects.create_file_reaches s rp F df fz pfuel o2 gh ps Hcl Hfz Hchk Hwf Hl rs Hk t root path dirp name o flags mode). Qed.
+
+(* two parents: the descriptor of the first parent survives the second walk (C11's balance
+   judgement read on the static kernel), so rename and hard links arrive at renameat(2) /
+   linkat on (source parent object, name, destination parent object, name) *)
+Theorem C14_rename_acts_on_parent_objects :
+  forall s rp F df fz pfuel o2 gh ps rs t root src dst sdirp sname ddirp dname o1 o3 fl,
+    StaticProofs.closed s -> fz <> 0%nat -> StaticProofs.chk_static_ok s rp F (OpathM.check_current fz o2 pfuel gh) ->
+    wf s df -> StaticProofs.links_ok s -> rs_kernel rs = false ->
+    path_split src = Some (Ok (sdirp, Some sname)) -> has_nul sdirp = false -> has_nul sname = false ->
+    path_split dst = Some (Ok (ddirp, Some dname)) -> has_nul ddirp = false -> has_nul dname = false ->
+    StaticProofs.Frame s F t -> Static.tget t root = Some ROOT ->
+    ewalk s sdirp false (has (rs_flags rs) RESOLVE_NO_SYMLINKS) = WOk o1 ->
+    ewalk s ddirp false (has (rs_flags rs) RESOLVE_NO_SYMLINKS) = WOk o3 ->
+    exists t2 d1 d2, Static.tget t2 d1 = Some o1 /\ Static.tget t2 d2 = Some o3 /\
+      StaticEffects.reaches s rp t (root_rename fz o2 pfuel gh ps rs root src dst fl)
+        (if N.eqb fl 0 then Renameat d1 sname d2 dname else Renameat2 d1 sname d2 dname fl) t2.
+Proof. intros s rp F df fz pfuel o2 gh ps rs t root src dst sdirp sname ddirp dname o1 o3 fl Hcl Hfz Hchk Hwf Hl Hk.
+       exact (StaticEffects.rename_reaches s rp F df fz pfuel o2 gh ps Hcl Hfz Hchk Hwf Hl rs Hk t root src dst sdirp sname ddirp dname o1 o3 fl). Qed.
+
+Theorem C14_hardlink_acts_on_parent_objects :
+  forall s rp F df fz pfuel o2 gh ps rs t root path target dirp name tdirp tname o1 o3,
+    StaticProofs.closed s -> fz <> 0%nat -> StaticProofs.chk_static_ok s rp F (OpathM.check_current fz o2 pfuel gh) ->
+    wf s df -> StaticProofs.links_ok s -> rs_kernel rs = false ->
+    path_split path = Some (Ok (dirp, Some name)) -> has_nul dirp = false -> has_nul name = false ->
+    path_split target = Some (Ok (tdirp, Some tname)) -> has_nul tdirp = false -> has_nul tname = false ->
+    StaticProofs.Frame s F t -> Static.tget t root = Some ROOT ->
+    ewalk s dirp false (has (rs_flags rs) RESOLVE_NO_SYMLINKS) = WOk o1 ->
+    ewalk s tdirp false (has (rs_flags rs) RESOLVE_NO_SYMLINKS) = WOk o3 ->
+    exists t2 d1 d2, Static.tget t2 d1 = Some o1 /\ Static.tget t2 d2 = Some o3 /\
+      StaticEffects.reaches s rp t (root_create fz o2 pfuel gh ps rs root path (IHardlink target)) (Linkat d2 tname d1 name LINKAT_FLAGS) t2.
+Proof. intros s rp F df fz pfuel o2 gh ps rs t root path target dirp name tdirp tname o1 o3 Hcl Hfz Hchk Hwf Hl Hk.
+       exact (StaticEffects.create_hardlink_reaches s rp F df fz pfuel o2 gh ps Hcl Hfz Hchk Hwf Hl rs Hk t root path target dirp name tdirp tname o1 o3). Qed.
+
+
 Print Assumptions C14_parent_and_name.
 Print Assumptions C14_split_shape.
 Print Assumptions C14_trailing_slash.
@@ -160,3 +242,8 @@ Print Assumptions C14_static_parent_object.
 Print Assumptions C14_create_dir_acts_on_parent_object.
 Print Assumptions C14_remove_acts_on_parent_object.
 Print Assumptions C14_create_node_acts_on_parent_object.
+Print Assumptions C14_create_node_exact_call.
+Print Assumptions C14_create_symlink_acts_on_parent_object.
+Print Assumptions C14_create_file_acts_on_parent_object.
+Print Assumptions C14_rename_acts_on_parent_objects.
+Print Assumptions C14_hardlink_acts_on_parent_objects.
